@@ -535,6 +535,25 @@ def run_form(case):
         got = F.assemble(**kw).toarray()
         c.trans += 1
         c.cmp(f"variant={kw}", "Form variant equals the plain assembly", got, base, 1e-14)
+    # call histories on ONE form object: every sequence (depth <= 3) of assemble calls over {parallel} x {sym}; each
+    # result must be the plain assembly (nothing may be remembered from one call to the next)
+    opts = [dict(parallel=False), dict(parallel=True)]
+    if bilinear and symmable:
+        opts += [dict(sym=True), dict(sym=True, parallel=True), dict(sym=False, parallel=True)]
+    nseq = 0
+    for depth in (2, 3):
+        for seq in itertools.product(range(len(opts)), repeat=depth):
+            Fh = fem.Form(v=cont, u=cont if bilinear else None)(lambda: wf)
+            for step, k in enumerate(seq):
+                got = Fh.assemble(**opts[k]).toarray()
+                c.trans += 1
+                e = np.abs(got - base).max() / (1 + np.abs(base).max())
+                if e > 1e-13:
+                    c.bad("history=" + " > ".join(str(opts[i]) for i in seq[: step + 1]), "assemble() on a form object with a call history differs from the plain assembly", float(e), 0, 1e-13)
+                    break
+            nseq += 1
+    c.traces += nseq
+    c.outcomes.add(f"form-call-histories={nseq}")
     Fp = fem.Form(v=cont, u=cont if bilinear else None, parallel=True)(lambda: wf)
     with sched.use_pool(sched.FakePool(3)):
         got = Fp.assemble().toarray()
